@@ -227,6 +227,15 @@ def gen_cases(ctx):
             ks = sorted(rng.sample(range(1, n), rng.choice([1, 1, 2, 3]) if n > 4 else 1))
             c["restarts"] = [[k, op] for k in ks]
             cases.append(c)
+        # two writer threads on one monitor: while packet i reads the local clock a second thread
+        # runs the whole process_packet of packet i+1 (possible only if the clock is read outside
+        # the writer lock)
+        for j in range(6 if ctx.thorough else 2):
+            n = rng.choice([3, 5, 8])
+            c = mk_case(rng, d, [rand_meta(rng, d) for _ in range(n)], ["none", "mixed"][j % 2], "concurrent-writers")
+            first = rng.randrange(0, n - 1)
+            c["concurrent"] = [[first, first + 1]] + ([[first + 2, first + 3]] if first + 3 < n and rng.random() < 0.5 else [])
+            cases.append(c)
         # the wall clock of the replaying host steps backwards during the replay: must not matter
         for j in range(6 if ctx.thorough else 2):
             c = mk_case(rng, d, [rand_meta(rng, d) for _ in range(rng.choice([3, 5, 8]))], ["device", "mixed"][j % 2], "replay-clock-backwards")
@@ -569,8 +578,10 @@ def compose_requests():
 # ---------------------------------------------------------------------------
 
 def strip_case(c):
+    if c.get("handed_over"):
+        return c["handed_over"]
     return {"domain": c["domain"], "clock": c["clock"], "replay_clock": c.get("replay_clock"), "split": c.get("split"),
-            "restarts": c.get("restarts"),
+            "restarts": c.get("restarts"), "concurrent": c.get("concurrent"),
             "pkts": [{k: v for k, v in p.items() if k != "frames"} for p in c["pkts"]]}
 
 
@@ -578,7 +589,7 @@ def _drive(cases, maps, tag):
     tmp = "/var/tmp/C19-%s-%d" % (tag, os.getpid())
     try:
         req = {"tmp": tmp, "maps": maps or {}, "hub_probe": True,
-               "cases": [{"domain": c["domain"], "clock": c["clock"], "pkts": c["pkts"], "replay_clock": c.get("replay_clock"), "split": c.get("split"), "restarts": c.get("restarts")} for c in cases]}
+               "cases": [{"domain": c["domain"], "clock": c["clock"], "pkts": c["pkts"], "replay_clock": c.get("replay_clock"), "split": c.get("split"), "restarts": c.get("restarts"), "concurrent": c.get("concurrent")} for c in cases]}
         return C.run_impl("C19.py", req)
     finally:
         shutil.rmtree(tmp, ignore_errors=True)
@@ -610,13 +621,31 @@ def run_driver(cases, maps=None, tag="run"):
             for p, a in zip(cases[i]["pkts"], rc.get("in", [])):
                 if "frames" in p and "alt" in a:
                     p["frame"] = p["frames"][a["alt"]]
+            normalise_concurrent(cases[i], rc)
     return res
+
+
+def normalise_concurrent(case, rc):
+    """A `concurrent` capture is judged and modelled in the order in which the writer lock was
+    taken, with the clock readings in the order they were made (the model reads the clock
+    inside the critical section).  The capture as handed over is kept for the replay file."""
+    cc = rc.get("concurrent")
+    if not cc or case.get("handed_over"):
+        return
+    case["handed_over"] = {"domain": case["domain"], "clock": list(case["clock"]), "concurrent": case["concurrent"],
+                           "pkts": [{k: v for k, v in p.items() if k != "frames"} for p in case["pkts"]]}
+    order = cc["lock_order"]
+    if sorted(order) != list(range(len(case["pkts"]))) or len(cc["clock_reads"]) != len(order):
+        return
+    case["pkts"] = [case["pkts"][k] for k in order]
+    rc["in"] = [rc["in"][k] for k in order]
+    case["clock"] = [v for _i, v in cc["clock_reads"]]
 
 
 def shrink(case, pred):
     """smallest sub-capture (single packets, consecutive pairs, prefixes) on which `pred(case, res)` still holds"""
     n = len(case["pkts"])
-    if n <= 1:
+    if n <= 1 or case.get("concurrent"):
         return case
     cands = []
     def sub(idx):
@@ -797,6 +826,10 @@ def run(ctx):
             if "rssi" in m: pd["rssi_values"].add(m["rssi"])
             if "channel" in m: pd["channels"].add(m["channel"])
             nontriv.append([c["domain"], sorted((k, v) for k, v in m.items() if k != "ts")])
+    dist["concurrent_writer_injections"] = {}
+    for c, rs in zip(cases, res_cases):
+        for _i, _j, what in (rs.get("concurrent") or {}).get("interleaved", []):
+            dist["concurrent_writer_injections"][what] = dist["concurrent_writer_injections"].get(what, 0) + 1
     for pd in dist["per_domain"].values():
         pd["rssi_values"], pd["channels"] = len(pd["rssi_values"]), len(pd["channels"])
     ctx.cov["distribution"] = dist
@@ -854,6 +887,9 @@ def replay(payload):
         c["replay_clock"] = case["case"].get("replay_clock")
         c["split"] = case["case"].get("split")
         c["restarts"] = case["case"].get("restarts")
+        c["concurrent"] = case["case"].get("concurrent")
+        if c["concurrent"]:
+            c["kind"] = "none" if all("ts" not in p["meta"] for p in c["pkts"]) else "mixed"
         r = run_driver([c], tag="replay")
         res = r["cases"][0]
         print("implementation now gives:", json.dumps(res)[:3000])
